@@ -73,3 +73,10 @@ package ice
 //@   site call updateConnectionState#1 assert initial-deadline-only-while-checking: a.connectionState == ConnectionStateChecking && arg1 == ConnectionStateFailed && checkingTimeout != 0
 //@   site call ContactCandidates#1 assert no-checks-while-failed: a.connectionState != ConnectionStateFailed
 //@   ensures failed-tick-is-silent: old(a.connectionState) == ConnectionStateFailed ==> unchangedExcept("E_ice.ConnectionState")
+
+// Every caller of updateConnectionState and the state it asks for.
+//@ enumerate C04 calls ice.(*Agent).updateConnectionState in (*Agent).validateSelectedPair, (*Agent).setSelectedPair, (*Agent).connectivityChecks, (*Agent).startConnectivityChecks, (*Agent).Restart, newAgentWithConfig
+
+//@ func (*Agent).startConnectivityChecks$1
+//@   props C04
+//@   site call updateConnectionState#1 assert start-enters-checking: arg1 == ConnectionStateChecking
